@@ -1275,8 +1275,12 @@ impl<T> Arena<T> {
             last_free_slot: None,
         }
     }
-    #[verifier::external_body]
-    pub fn capacity(&self) -> usize {
+    pub fn capacity(&self) -> (r: usize)
+        // @props C13
+        ensures
+            // @ob C13.capacity_covers_the_stored_nodes C13
+            r >= self.nodes@.len(),
+    {
         self.nodes.capacity()
     }
     pub fn reserve(&mut self, additional: usize)
